@@ -342,8 +342,8 @@ Example C10_example_run :
   exists p s, new_population (ex_opts 8 15 0) ex_start ex_s0 = Ok (p, s) /\ run_inv p /\
               PopWF.history (ex_opts 8 15 0) p s [] p s.
 Proof.
-  destruct (new_population (ex_opts 8 15 0) ex_start ex_s0) as [[p s]| | | | |] eqn:E;
-    try (exfalso; vm_compute in E; discriminate E).
+  assert (Hok : is_ok (new_population (ex_opts 8 15 0) ex_start ex_s0) = true) by (vm_compute; reflexivity).
+  destruct (new_population (ex_opts 8 15 0) ex_start ex_s0) as [[p s]| | | | |] eqn:E; try discriminate.
   exists p, s. split; [reflexivity|]. split; [exact (run_inv_spawn _ _ _ _ _ E)|constructor].
 Qed.
 
